@@ -445,6 +445,24 @@ func init() {
 	})
 	// PacedClock(maxStepNs): from now on two consecutive clock readings differ by at most
 	// maxStepNs unless a Pause lies between them. Pause(ns): the clock jumps by ns..2ns.
+	// NoAddress(label, data): data (bytes or string) must not contain a formatted memory address
+	reg(zz+"NoAddress", func(fr *frame, args []value) value {
+		var segs []seg
+		switch d := args[1].(type) {
+		case []value:
+			segs = segsOf(bytesToStr(d))
+		default:
+			segs = segsOf(d)
+		}
+		clean := true
+		for _, sg := range segs {
+			if sg.kind == sByte && sg.t != nil && strings.HasPrefix(sg.t.Name, "addr#") {
+				clean = false
+			}
+		}
+		fr.assertProp(toString(args[0]), term.BoolConst(clean), "output contains a formatted memory address")
+		return nil
+	})
 	reg(zz+"ConcreteClock", func(fr *frame, args []value) value {
 		fr.i.ps.clockConcrete = uint64(args[0].(int64))
 		if fr.i.ps.clockNow == 0 {
